@@ -122,7 +122,13 @@ class Unit:
                     o.detail = 'kani status=%s without a failed check (timeout / out of memory / unwinding)' % h['status']
                 else:
                     descs = sorted(set((c['description'] or '') for c in h['failed']))
-                    if any('unwinding assertion' in x for x in descs) and all('unwinding' in x for x in descs):
+                    ARTIFACT = ('free argument', 'double free', 'rust_dealloc', 'dereference failure', 'pointer NULL', 'pointer invalid', 'memory leak', 'deallocated dynamic object')
+                    real = [x for x in descs if not any(a in x for a in ARTIFACT) and 'unwinding' not in x]
+                    if not real and any(any(a in x for a in ARTIFACT) for x in descs):
+                        # CBMC memory-model checks inside std on safe code (strum has no unsafe): a tool artifact, never an alarm
+                        o.status = 'undecided'
+                        o.detail = 'only CBMC memory-model checks failed (tool artifact on safe code): ' + '; '.join(descs)[:300]
+                    elif any('unwinding assertion' in x for x in descs) and all('unwinding' in x for x in descs):
                         o.status = 'undecided'
                         o.detail = 'unwinding assertion failed: bound too small'
                     else:
